@@ -227,10 +227,11 @@ class HGen:
     """Generates one history and, alongside, what the value semantics says about columns, plus the shape flags the
     signatures of known findings are made of."""
 
-    def __init__(self, rnd, maxlen):
+    def __init__(self, rnd, maxlen, add_if_absent=True):
         self.r = rnd
         self.eg = EGen(rnd)
         self.maxlen = maxlen
+        self.add_if_absent = add_if_absent    # the T1 fact: how the schema cache treats a key it already has
 
     def new(self):
         r = self.r
@@ -545,9 +546,9 @@ class HGen:
             sig = hd["taint"] or (SIG_STAR if hd["star"] else None)
             self.views[key] = {"cols": dict(hd["cols"]), "embedded": set(hd["embedded"]), "star": hd["star"], "taint": sig,
                                "reads": set(hd["reads"])}
-            if not hd["star"] and key not in self.cache:
+            if not hd["star"] and (key not in self.cache or not self.add_if_absent):
                 self.cache[key] = list(hd["cols"])
-            if hd["star"] and key in self.cache and not hd["taint"]:
+            if hd["star"] and key in self.cache and self.add_if_absent and not hd["taint"]:
                 sig = None      # add_table returns early: no exception; the view itself is fine
                 self.views[key]["taint"] = None
             self.emit(["reg", name, h], f"(SReg {strlit(name)} {natlit(h)})", "reg", sig, f"heap[{h}].createOrReplaceTempView({name!r})")
@@ -665,8 +666,8 @@ CORPUS = [
 ]
 
 
-def corpus_history(desc):
-    g = HGen(random.Random(0), 0)
+def corpus_history(desc, add_if_absent=True):
+    g = HGen(random.Random(0), 0, add_if_absent)
     g.new()
     g.keys = ["v", "w", "u"]
     for d in desc:
@@ -677,7 +678,7 @@ def corpus_history(desc):
             sig = hd["taint"] or (SIG_STAR if hd["star"] else None)
             g.views[key] = {"cols": dict(hd["cols"]), "embedded": set(hd["embedded"]), "star": hd["star"], "taint": sig,
                             "reads": set(hd["reads"])}
-            if not hd["star"] and key not in g.cache:
+            if not hd["star"] and (key not in g.cache or not g.add_if_absent):
                 g.cache[key] = list(hd["cols"])
             g.emit(["reg", name, h], f"(SReg {strlit(name)} {natlit(h)})", "reg", sig, f"heap[{h}].createOrReplaceTempView({name!r})")
         elif d[0] == "table":
@@ -786,9 +787,11 @@ def run(ctx: core.Ctx):
         text, facts = c13_facts.generate(core.REPO)
         ctx.gen("C13Facts", text, facts)
         t1_ok = True
+        add_if_absent = bool(facts[0]["value"])
     except Exception as ex:
         ctx.broken("T1:c13_facts", f"{type(ex).__name__}: {ex}")
         t1_ok = False
+        add_if_absent = True
         ctx.gen("C13Facts", open(core.VERIF + "/translate/c13_facts_pinned.v").read())
     # ---- proofs
     ctx.log("T1 done")
@@ -797,8 +800,8 @@ def run(ctx: core.Ctx):
     # ---- T3
     rnd = random.Random(ctx.seed)
     quick = ctx.tier == "quick"
-    g = HGen(rnd, 6 if quick else 9)
-    hs = [corpus_history(d) for d in CORPUS]
+    g = HGen(rnd, 6 if quick else 9, add_if_absent)
+    hs = [corpus_history(d, add_if_absent) for d in CORPUS]
     n_hist = 260 if quick else 2600
     seen = set()
     while len(hs) < n_hist + len(CORPUS):
@@ -889,7 +892,9 @@ def run(ctx: core.Ctx):
             ctx.sample({"history": [x["text"] for x in h["meta"]], "verdict": v})
     with open(os.path.join(ctx.build, "debug.json"), "w") as f:
         json.dump({"model_fail": model_fail[:40], "engine_fail": engine_fail[:40], "thm_fail": thm_fail[:40],
-                   "unexplained": [d for d in ctx.deviations if d["signature"].startswith("C13/unexplained")][:40]}, f, indent=1)
+                   "unexplained": [d for d in ctx.deviations if d["signature"].startswith("C13/unexplained")][:40],
+                   "per_signature": {sg: [d["replay"] for d in ctx.deviations if d["signature"] == sg][:4]
+                                     for sg in {d["signature"] for d in ctx.deviations}}}, f, indent=1)
     if model_fail:
         ctx.broken("T3:impl-vs-model", f"{len(model_fail)} steps where the implementation agrees with the spec but not with "
                    f"the model; first: {model_fail[0]['step']}", data=model_fail[:5])
